@@ -190,6 +190,7 @@ func runC35(p *core.Prog, r *core.Report) {
 			core.G("committee-fetched", core.ErrNil, "(pkg/innerring.committeeFetcher).Committee")},
 			Derived: []core.Derived{{Name: "indexes-valid", Alts: [][]string{{"cache-fresh"}, {"inner-ring-fetched", "committee-fetched"}}}}, Need: []string{"indexes-valid"}})
 	}
+	indexerStampOnlyAfterRefresh(p, r, r2)
 	for _, m := range []string{"AlphabetIndex", "InnerRingIndex", "InnerRingSize"} {
 		core.CheckSuccess(p, r2, core.SuccessRule{Fn: idxT + "." + m, ResultIdx: -1, MinReturns: 1, Guards: []core.Guard{core.G("updated", core.ErrNil, idxT+".update")}})
 	}
@@ -277,3 +278,25 @@ func runC35(p *core.Prog, r *core.Report) {
 
 // c35Exceptions: sink calls that legitimately run without alphabet membership (own authority).
 var c35Exceptions = map[string]string{}
+
+// indexerStampOnlyAfterRefresh: the inner ring indexer marks its cache as fresh (lastAccess = now) only after BOTH lists were
+// fetched successfully; otherwise a failed refresh makes the following calls answer from a stale or zero-valued cache
+// without an error (zero value = "alphabet index 0"). Shared by C35.R2 and C38.R4.
+func indexerStampOnlyAfterRefresh(p *core.Prog, r *core.Report, h *core.RuleH) {
+	fn := p.Func("(*pkg/innerring.innerRingIndexer).update")
+	if fn == nil {
+		r.Fatalf("%s: indexer.update not found", h.ID())
+		return
+	}
+	core.CheckEffectsFn(p, h, fn, core.EffectRule{Min: 1, Guards: []core.Guard{
+		core.G("inner-ring-fetched", core.ErrNil, "(pkg/innerring.irFetcher).InnerRingKeys"),
+		core.G("committee-fetched", core.ErrNil, "(pkg/innerring.committeeFetcher).Committee")},
+		Effect: func(_ *core.Prog, in ssa.Instruction) (string, bool) {
+			st, ok := in.(*ssa.Store)
+			if !ok {
+				return "", false
+			}
+			fa, ok := st.Addr.(*ssa.FieldAddr)
+			return "cache-marked-fresh", ok && core.FieldAddrName(fa) == "(pkg/innerring.innerRingIndexer).lastAccess"
+		}})
+}
